@@ -4,6 +4,7 @@ and suffixes and whatever the case of names; forge-nxdomain never reaches an ups
 only with RD; no route -> SERVFAIL."""
 import os
 import random
+import struct
 import sys
 import time
 
@@ -102,13 +103,19 @@ def main():
         "scripted upstream per forward route on its own loopback address; query names of 0..7 labels in random case incl. the suffixes "
         "themselves and near misses; outcome compared with the longest-suffix model: forwarded to exactly that route's upstream (and only "
         "with RD), NXDOMAIN without any upstream transmission under forge-nxdomain, SERVFAIL without a route; identical across "
-        "permutations; distinct = (expected action, suffix depth, name case, permuted, outcome)", floor=100)
+        "permutations; plus one table of three nested forward routes whose upstreams give cacheable answers and name errors (SOA, TTL 300) asked in an order that puts ancestors first; distinct = (expected action, suffix depth, name case, permuted, outcome)", floor=100)
     d = base.scratch_dir("c15")
     ups = []
     try:
         base.setup_loopback()
 
         def script(qn, proto, nth, q):
+            if qn.endswith("nest.test") and (any(l.startswith("nx") for l in qn.split(".")) or qn == "nest.test"):
+                # a cacheable name error (SOA with a positive TTL), as a real upstream would give for a name it does not have
+                soa = dnslib.enc_name("ns.nest.test") + dnslib.enc_name("root.nest.test") + struct.pack(">IIIII", 1, 3600, 600, 86400, 300)
+                return [("reply", dnslib.build_reply(q, rcode=3, authority=[("nest.test", 6, 300, soa)]), 0)]
+            if qn.endswith("nest.test"):
+                return [("reply", dnslib.build_reply(q, answers=[(qn, 1, 300, bytes([10, 0, 0, 2]))]), 0)]
             return [("reply", dnslib.build_reply(q, answers=[(qn, 1, 0, bytes([10, 0, 0, 1]))]), 0)]
 
         for k in range(1, 7):
@@ -187,6 +194,41 @@ def main():
                     p.stop()
             leg.count("tables", 1)
             leg.count("instances", nperm)
+        # ---- nested forward routes whose upstreams give cacheable answers, incl. name errors for ancestors: what one route's
+        # server said about `nest.test` / `nx.corp.nest.test` must not answer names that belong to another route / were never asked
+        nest_conf = ("---\ndns-listeners: ['127.0.0.53:53']\nacls:\n  - match-subnets: ['127.0.0.0/8']\n    apply-access: ['dns-recursion']\ndns-routes:\n"
+                     "  - domain-suffixes: ['']\n    type: forward\n    dns-servers: ['127.0.2.1']\n"
+                     "  - domain-suffixes: ['corp.nest.test']\n    type: forward\n    dns-servers: ['127.0.2.2']\n"
+                     "  - domain-suffixes: ['lab.corp.nest.test']\n    type: forward\n    dns-servers: ['127.0.2.3']\n")
+        cp = os.path.join(d, "nest.conf")
+        open(cp, "w").write(nest_conf)
+        p = base.Proc("erbium-dns", [os.path.join(base.BIN, "erbium-dns"), cp], d, rust_log="error")
+        try:
+            if not dnslib.wait_port("127.0.0.53", 53):
+                raise base.Inconclusive("erbium-dns did not start for the nested table: %s" % p.text()[-300:])
+            seq = [("nest.test", 1, NX), ("host.corp.nest.test", 2, 0), ("nx.corp.nest.test", 2, NX), ("a.nx.corp.nest.test", 2, NX), ("www.nest.test", 1, 0),
+                   ("host.lab.corp.nest.test", 3, 0), ("nxa.lab.corp.nest.test", 3, NX), ("b.nxa.lab.corp.nest.test", 3, NX), ("other.corp.nest.test", 2, 0),
+                   ("Host.Corp.Nest.Test", None, 0)]
+            for (qname, upstream, want_rc) in seq:
+                counter[0] += 1
+                marks = [len(u.events) for u in ups]
+                r, err = dnslib.tcp_query(("127.0.0.53", 53), dnslib.build_query(counter[0] & 0xFFFF, qname, edns=1232), timeout=8.0)
+                time.sleep(0.002)
+                saw = [i + 1 for i, u in enumerate(ups) if [e for e in u.events[marks[i]:] if e["kind"] == "query" and (e.get("qname") or "").lower() == qname.lower()]]
+                leg.eval()
+                rc = (dnslib.parse(r).rcode & 0xF) if r is not None else None
+                # the last query repeats an earlier name in another spelling: it may be answered from the cache (no upstream) or forwarded to 2
+                ok = rc == want_rc and (saw == [upstream] if upstream is not None else saw in ([], [2]))
+                leg.cls("nested-cacheable|%s|%s" % ("nx" if want_rc == NX else "noerror", "ok" if ok else "bad"))
+                if not ok:
+                    leg.violation("C15/nested-routes-with-cacheable-answers/%s" % ("wrong-rcode" if rc != want_rc else "wrong-upstream"),
+                                  "query %s: expected rcode %s from upstream %s, got rcode %s, upstreams that saw it: %s (earlier queries of this sequence: %s)" % (
+                                      qname, want_rc, upstream, rc, saw, [x[0] for x in seq[:seq.index((qname, upstream, want_rc))]]),
+                                  {"engine": "c15-e2e", "config": nest_conf, "qname": qname})
+            for line in p.panics():
+                leg.violation("C15/handler-panic/%s" % base.panic_signature(line), line.strip(), {"engine": "c15-e2e", "config": nest_conf})
+        finally:
+            p.stop()
         leg.count("upstream_events", sum(len(u.events) for u in ups))
     except base.Inconclusive as e:
         leg.inconclusive(str(e))
